@@ -16,7 +16,7 @@ from cgroup import Case
 
 
 class CompilerProp:
-    def __init__(self, pid: str, gen: Callable, judge: Callable, n_quick: int, n_thorough: int, with_query=True, how: str = "", after: Optional[Callable] = None):
+    def __init__(self, pid: str, gen: Callable, judge: Callable, n_quick: int, n_thorough: int, with_query=True, how: str = "", after: Optional[Callable] = None, nontrivial: Optional[Callable] = None):
         self.pid = pid
         self.gen = gen
         self.judge = judge
@@ -24,6 +24,7 @@ class CompilerProp:
         self.n_thorough = n_thorough
         self.with_query = with_query
         self.after = after
+        self.nontrivial = nontrivial or cgroup.nontrivial
         self.how = how or "translate `source` (plus the synthetic metadata of tools/qgen.py) on `backend` through apply_ast_transformations + write_cpp_files; run the emitted per-event code on `events`"
 
     # ------------------------------------------------------------------ streams
@@ -42,7 +43,7 @@ class CompilerProp:
                 ctx.count("refused:" + c.result["error"])
             hit = self.judge(c)
             first = ((c.answer or {}).get("exec") or [{}])[0]
-            ctx.case(c.key(), cgroup.nontrivial(c), {"backend": c.backend, "query": c.source(), "first_event": first})
+            ctx.case(c.key(), self.nontrivial(c), {"backend": c.backend, "query": c.source(), "first_event": first})
             if hit is not None:
                 if hit.get("kind") == "broken":
                     ctx.disagreement(hit["what"], {"backend": c.backend, "source": c.source(), "body": (c.result or {}).get("query")}, hit.get("model"), hit.get("observed"))
